@@ -49,11 +49,28 @@ def raising_site(e: BaseException) -> str:
     return site
 
 
+MEM_BASE, MEM_PER_BYTE = 4 << 20, 256
+_mem = {"on": False, "peak": 0}
+
+
 def execute(rk, data: bytes, cache=None):
     import dpapi_ng
 
     cache = cache if cache is not None else seams.make_cache(rk)
     limit = 100000 + 100 * len(data)
+    if _mem["on"]:
+        import tracemalloc
+
+        tracemalloc.start()
+        try:
+            return _execute(dpapi_ng, cache, data, limit)
+        finally:
+            _mem["peak"] = tracemalloc.get_traced_memory()[1]
+            tracemalloc.stop()
+    return _execute(dpapi_ng, cache, data, limit)
+
+
+def _execute(dpapi_ng, cache, data: bytes, limit: int):
     try:
         v, steps, kdfs = budget.run(limit, dpapi_ng.ncrypt_unprotect_secret, data, cache=cache, kdf_limit=KDF_CAP)
         return "ok", v, steps, kdfs
@@ -61,14 +78,30 @@ def execute(rk, data: bytes, cache=None):
         return "net", e, budget.S.count, budget.S.kdf_calls
     except budget.BudgetExceeded as e:
         return "budget", e, budget.S.count, budget.S.kdf_calls
+    except MemoryError as e:
+        return "memory", e, budget.S.count, budget.S.kdf_calls
     except Exception as e:  # noqa: BLE001
         return "exc", e, budget.S.count, budget.S.kdf_calls
 
 
-def judge(acc, rk, case, data: bytes, allowed, cache=None) -> None:
-    st, v, steps, kdfs = execute(rk, data, cache)
+def judge(acc, rk, case, data: bytes, allowed, cache=None, mem: bool = False) -> None:
+    _mem["on"] = mem
+    try:
+        st, v, steps, kdfs = execute(rk, data, cache)
+    finally:
+        _mem["on"] = False
     acc.stat_max("dpapi_lines", steps)
     acc.stat_max("kdf_calls", kdfs)
+    if mem:
+        acc.stat_max("peak_alloc_bytes", _mem["peak"])
+        if _mem["peak"] > MEM_BASE + MEM_PER_BYTE * len(data):
+            acc.violate("budget:memory", case, {"len": len(data), "peak_alloc": _mem["peak"], "limit": MEM_BASE + MEM_PER_BYTE * len(data), "data": data[:200].hex()}, size=len(data))
+            acc.outcome("BUDGET-MEMORY")
+            return
+    if st == "memory":
+        acc.violate("budget:memory", case, {"len": len(data), "detail": "MemoryError", "data": data[:200].hex()}, size=len(data))
+        acc.outcome("BUDGET-MEMORY")
+        return
     if st == "ok":
         acc.outcome("returned")
     elif st == "net":
@@ -86,9 +119,15 @@ def judge(acc, rk, case, data: bytes, allowed, cache=None) -> None:
 
 def shards(tier: str, seed: int):
     out = []
-    for b in bm.bases(seed, tier):
-        for k in ("flip", "trunc", "del", "ins", "sub"):
-            out.append(["simple", b.bid, k])
+    for b in bm.bases(seed, tier, with_dh=True):
+        dh = "/DH/" in b.bid
+        if tier == "quick" and dh:
+            kinds = ["sub"]  # a DH unprotect costs ~20 ms (2048-bit pow): quick keeps the structure-aware families for the DH blob, thorough has all
+        else:
+            kinds = ["flip", "trunc", "del", "ins", "sub"]
+        for k in kinds:
+            for part in range(4 if (dh or tier == "thorough") and k in ("flip", "ins") else 1):
+                out.append(["simple", b.bid, k, part, 4 if (dh or tier == "thorough") and k in ("flip", "ins") else 1])
         out.append(["der", b.bid])
         out.append(["kid", b.bid])
     for part in range(8):
@@ -118,7 +157,8 @@ def run_shard(shard, tier, seed, acc) -> None:
         acc.stat_max("dpapi_lines_valid_blob", steps)
         acc.stat_max("kdf_calls_valid_blob", kdfs)
         if what == "simple":
-            gen = ((lab, d) for lab, d in bm.simple_mutations(base.blob) if lab[0] == shard[2])
+            part, nparts = (shard[3], shard[4]) if len(shard) > 4 else (0, 1)
+            gen = ((lab, d) for i_, (lab, d) in enumerate(x for x in bm.simple_mutations(base.blob) if x[0][0] == shard[2]) if i_ % nparts == part)
         elif what == "der":
             gen = bm.der_mutations(base.blob)
         else:
@@ -133,7 +173,8 @@ def run_shard(shard, tier, seed, acc) -> None:
         for lab, data in gen:
             if acc.too_many():
                 break
-            judge(acc, base.rk, ["mut", base.bid, lab], data, allowed)
+            in_kid0 = what == "kid" or (lab[0] in ("flip", "sub") and k0 <= (lab[1] // 8 if lab[0] == "flip" else lab[1]) < k1)
+            judge(acc, base.rk, ["mut", base.bid, lab], data, allowed, mem=in_kid0)
             n += 1
             acc.nt((base.bid, data))
             in_kid = what == "kid" or (lab[0] in ("flip", "sub") and k0 <= (lab[1] // 8 if lab[0] == "flip" else lab[1]) < k1)
